@@ -67,6 +67,40 @@ def run_demo_oracles(out: Outcome, prop: str) -> None:
         out.coverage["demo_oracles_run"] = n
 
 
+def _tree_lock():
+    """a shared lock on .work/tree.lock while its content names this run's tree; changing the content needs the exclusive lock.
+    Returns the open file (the lock lives as long as the process)."""
+    import fcntl
+    import time
+    work = ROOT / ".work"
+    work.mkdir(exist_ok=True)
+    mine = os.path.realpath(os.environ.get("PEST_REPO", "/repo"))
+    path = work / "tree.lock"
+    path.touch(exist_ok=True)
+    t0 = time.time()
+    while True:
+        fh = open(path, "r+")  # noqa: SIM115
+        fcntl.flock(fh, fcntl.LOCK_SH)
+        if fh.read().strip() == mine:
+            return fh
+        fcntl.flock(fh, fcntl.LOCK_UN)
+        try:
+            fcntl.flock(fh, fcntl.LOCK_EX | fcntl.LOCK_NB)
+        except OSError:
+            fh.close()
+            if time.time() - t0 > 7200:
+                print("INFRA: another run on a different tree held lean/PestModel/Generated for two hours (exit 2)", file=sys.stderr, flush=True)
+                os._exit(2)
+            time.sleep(0.5 + (os.getpid() % 7) / 10)
+            continue
+        fh.seek(0)
+        fh.truncate()
+        fh.write(mine)
+        fh.flush()
+        fcntl.flock(fh, fcntl.LOCK_SH)       # not atomic: the content is read again at the top of the loop
+        fh.close()
+
+
 def main() -> int:
     import faulthandler
     import signal as _sig
@@ -97,6 +131,9 @@ def main() -> int:
                 pass
         os._exit(2)
 
+    # the tables under lean/PestModel/Generated and the driver built from them are regenerated from the tree a run looks at:
+    # runs on the same tree may overlap, runs on different trees (PEST_REPO pointing at scratch worktrees) take turns
+    tree_lock = _tree_lock()
     wd = threading.Timer(limit, _expired)
     wd.daemon = True
     wd.start()
